@@ -200,6 +200,28 @@ def execute_threads(case, t):
         t.mark_nontrivial({"T": int(pts.shape[0]), "NW": case["nw"], "threads": counts, "layer": out["layer"]})
 
 
+def execute_e2e_threads(case, t):
+    """A complete run per thread-team size: every field of the result (sums and means of the per-point values included) must be
+    the same bits, not only the likelihood table."""
+    w = workers(thread_env=True)["jit"]
+    counts = [1, 2, 7, 8, 16]
+    try:
+        out = w.call("e2e", cfg=case, workers=0, with_rounds=False, threads=counts)["by_threads"]
+    except WorkerOpError as e:
+        raise Violation(f"complete run raised {e.etype} under numba.set_num_threads")
+    base = out["1"]
+    if not base["ok"]:
+        t.discard(f"run raised {base['exc']}")
+    for n in counts[1:]:
+        o = out[str(n)]
+        if not o["ok"]:
+            raise Violation(f"the run completes with one Numba thread and raises {o['exc']} with {n}")
+        if o["digest"] != base["digest"]:
+            raise Violation(f"the result with {n} Numba threads differs from the single-thread result (reported cost {o['cost']!r} vs {base['cost']!r}; "
+                            "some field is not the same bits)")
+    t.mark_nontrivial({"threads": counts, "cost": base["cost"]})
+
+
 # ----------------------------------------------------------------------------- (3) complete runs
 
 def execute_e2e(case, t):
@@ -256,6 +278,8 @@ SUBCHECKS = [
              budget={"quick": 240, "thorough": 8000}, shards={"quick": 2, "thorough": 4}, modes=["jit"]),
     SubCheck(name="likelihood_table_across_thread_counts", strategy=thread_case, execute=execute_threads,
              budget={"quick": 200, "thorough": 8000}, shards={"quick": 1, "thorough": 4}, modes=["jit"]),
+    SubCheck(name="complete_runs_across_thread_counts", strategy=lambda: gen.e2e_config(max_N=2, max_W=3, max_K=3, t_range=(60, 400), limits=(1, 2), lam_forms=("scalar",)),
+             execute=execute_e2e_threads, budget={"quick": 24, "thorough": 600}, shards={"quick": 3, "thorough": 4}, modes=["jit"]),
     SubCheck(name="complete_runs_across_modes", strategy=_e2e_strategy, execute=execute_e2e, pinned=_pinned_e2e_long,
              budget={"quick": 64, "thorough": 2000}, shards={"quick": 4, "thorough": 4}, modes=["jit"]),
 ]
